@@ -6,7 +6,7 @@
 \*
 \* One TLC state per consumed event; the result ids of an event are consecutive fresh ids, so the term store
 \* is a sequence.  A trace is accepted iff every event is consumed with bad = "" (verdict printed per trace).
-EXTENDS GaussTerms, Json
+EXTENDS GaussTerms, Json, Rat
 
 CONSTANT Traces    \* sequence of [hdr |-> header, ev |-> sequence of events]
 \* header: [solver: "solver"|"mle"|"dynamic"|"dynamic_relin", strategy: "filter"|"fixedpoint"|"fixedinterval",
@@ -14,8 +14,8 @@ CONSTANT Traces    \* sequence of [hdr |-> header, ev |-> sequence of events]
 \* event:  [op, name, out: seq of ids, in: seq of ids, i: seq of integers (times in model units, flags),
 \*          sc: scale code [typ, a, b]]
 
-VARIABLES tid, l, terms, bad, xfin
-vars == <<tid, l, terms, bad, xfin>>
+VARIABLES tid, l, terms, bad, xfin, reads
+vars == <<tid, l, terms, bad, xfin, reads>>
 
 MLE == 1000000      \* the symbol of the quasi-MLE factor in scale tags
 Hdr == Traces[tid].hdr
@@ -152,13 +152,66 @@ OffgridProblem(e) ==
   ELSE IF Tm(e.in[1]) # ExpectedOutput(xfin, e.i[1]) THEN "offgrid: the marginal is not the posterior at that time"
   ELSE ""
 
+\* ---- C07: the acceptance quantity ------------------------------------------------
+\* scripted scalars of the tracing SSM (harness/tracing.py): component c in {0, 1}
+\*   std(X)[k][c]  = 2^-(id mod 4) (k+1)/2 (1+c)        mean(X)[k][c] = ((id mod 5) + 1 + k) (1 if c = 0 else 7)
+\*   rms(O)        = 1 + id/1024
+StdBase(id, k)  == RMul(R(1, 2 ^ (id % 4)), R(k + 1, 2))
+MeanBase(id, k) == RInt((id % 5) + 1 + k)
+RmsOf(id)       == R(1024 + id, 1024)
+RECURSIVE FactN(_)
+FactN(n) == IF n <= 1 THEN 1 ELSE n * FactN(n - 1)
+HasRead(what, id) == \E q \in 1..Len(reads) : reads[q] = <<what, id>>
+
+\* errnorm marker: e.in = <<previous u, proposed u, proposed cached linearisation>>,
+\* e.i = <<dt, t_prop, relin, kind (0 residual / 1 state), didx, per_unit, norm (0 scale-then-rms / 1 rms-then-scale),
+\*         residual_order, atol num, atol den, rtol num, rtol den>>
+\* -> <<problem, expected squared norm>>
+ErrnormExpect(e) ==
+  LET prev == Tm(e.in[1])   prop == Tm(e.in[2])
+      dt == e.i[1]  tprop == e.i[2]  relin == e.i[3] = 1  state == e.i[4] = 1  didx == e.i[5]
+      perunit == e.i[6] = 1  rmsThenScale == e.i[7] = 1  resorder == e.i[8]
+      atol == R(e.i[9], e.i[10])  rtol == R(e.i[11], e.i[12])
+      \* the last std read is the error
+      stdReads == SelectSeq(reads, LAMBDA r : r[1] = "read_std")
+      eid == IF Len(stdReads) > 0 THEN stdReads[Len(stdReads)][2] ELSE 0
+      E == Tm(eid)
+      Mexp == M(prev, dt, Unit)                          \* extrapolation from the previous mean only, unit scale
+      LinOK(j) == IF relin THEN (j.k = "L" /\ j.at = Mexp /\ j.t = tprop) ELSE j = Tm(e.in[3])
+      n0 == IF state THEN didx ELSE resorder - 1
+      n == IF perunit THEN n0 + 1 ELSE n0
+      k == IF state THEN didx ELSE 0
+      \* local scale r and the unit-scale std s of the quantity whose error is measured
+      oid == IF state THEN (IF E.k = "PM" THEN E.oid ELSE 0) ELSE (IF E.k = "OR" THEN E.o.id ELSE 0)
+      structure ==
+        IF state
+        THEN E.k = "PM" /\ E.of = Mexp /\ LinOK(E.j) /\ HasRead("rms", E.oid)
+        ELSE E.k = "OR" /\ E.o.k = "O" /\ E.o.of = Mexp /\ LinOK(E.o.j) /\ E.f = <<eid - 1>> /\ HasRead("rms", eid - 1)
+      \* error in component c: (state: r * std) (residual: std of the rescaled observation) times dt^n / n!
+      \* dt is in model units of 2^-20
+      dtr == R(dt, 1048576)
+      fac == RMul(RPow(dtr, n), R(1, FactN(n)))
+      sc == IF state THEN RMul(RmsOf(oid), StdBase(eid, k)) ELSE StdBase(eid, k)
+      e0 == RMul(sc, fac)          e1 == RMul(RInt(2), e0)
+      mb == RMax(MeanBase(e.in[1], k), MeanBase(e.in[2], k))
+      w0 == RAdd(atol, RMul(rtol, mb))   w1 == RAdd(atol, RMul(rtol, RMul(RInt(7), mb)))   wr == RAdd(atol, RMul(rtol, RMul(RInt(5), mb)))
+      sq(x) == RMul(x, x)
+      n2 == IF rmsThenScale
+            THEN RDiv(RMul(R(1, 2), RAdd(sq(e0), sq(e1))), sq(wr))
+            ELSE RMul(R(1, 2), RAdd(sq(RDiv(e0, w0)), sq(RDiv(e1, w1))))
+  IN IF prev.k # "N" \/ prop.k # "N" THEN <<"errnorm: previous/proposed states are not marginals", RZero>>
+     ELSE IF ~structure THEN <<"errnorm: the error is not the (locally calibrated) std of the observed mean-only extrapolation with the configured linearisation", RZero>>
+     ELSE IF ~(HasRead("read_mean", e.in[1]) /\ HasRead("read_mean", e.in[2])) THEN <<"errnorm: the reference must use the previous and the proposed mean", RZero>>
+     ELSE <<"", n2>>
+
 MarkerProblem(e) ==
   CASE e.name = "finalize" -> IF FinalizeProblem(e) # "" THEN FinalizeProblem(e) ELSE ReportProblem(e)
     [] e.name = "offgrid" -> OffgridProblem(e)
+    [] e.name = "errnorm" -> ErrnormExpect(e)[1]
     [] OTHER -> ""
 
 \* ---- the trace machine --------------------------------------------------------
-Init == tid = 1 /\ l = 1 /\ terms = <<>> /\ bad = "" /\ xfin = Err("none")
+Init == tid = 1 /\ l = 1 /\ terms = <<>> /\ bad = "" /\ xfin = Err("none") /\ reads = <<>>
 
 Verdict(why) ==
   PrintT("@@VERDICT " \o ToJson([tid |-> tid, ok |-> (why = ""), at |-> l, why |-> why]))
@@ -170,11 +223,18 @@ Consume ==
         THEN /\ bad' = MarkerProblem(e)
              /\ terms' = terms
              /\ xfin' = IF e.name = "finalize" THEN Tm(e.in[1]) ELSE xfin
+             /\ reads' = <<>>
+             /\ (e.name = "errnorm" /\ ErrnormExpect(e)[1] = "") =>
+                    PrintT("@@ERRNORM " \o ToJson([tid |-> tid, at |-> l, n2 |-> ErrnormExpect(e)[2]]))
+        ELSE IF e.op \in {"read_std", "read_mean", "rms"}
+        THEN /\ reads' = Append(reads, <<e.op, e.in[1]>>)
+             /\ UNCHANGED <<terms, bad, xfin>>
         ELSE LET r == OpResult(e)
              IN /\ terms' = terms \o r
                 /\ bad' = IF Len(e.out) # Len(r) \/ (Len(r) > 0 /\ e.out[1] # Len(terms) + 1)
                           THEN "ids: results are not consecutive fresh ids" ELSE ""
                 /\ xfin' = xfin
+                /\ reads' = reads
   /\ l' = l + 1
   /\ tid' = tid
 
@@ -182,7 +242,7 @@ NextTrace ==
   /\ tid <= Len(Traces)
   /\ (bad # "" \/ l > Len(Traces[tid].ev))
   /\ Verdict(bad)
-  /\ tid' = tid + 1 /\ l' = 1 /\ terms' = <<>> /\ bad' = "" /\ xfin' = Err("none")
+  /\ tid' = tid + 1 /\ l' = 1 /\ terms' = <<>> /\ bad' = "" /\ xfin' = Err("none") /\ reads' = <<>>
 
 Next == Consume \/ NextTrace
 Spec == Init /\ [][Next]_vars
